@@ -79,6 +79,43 @@ def check_merge(case):
     return bad, 1
 
 
+def check_merge2(case):
+    """several groups merged in one merge_peaks call, peaks with a buffer of 3 samples (merged peaks are down-sampled)"""
+    bad = []
+    ps = case["peaks"]
+    dt3 = strax.peak_dtype(n_channels=2, n_sum_wv_samples=3)
+    for g, outs in zip(case["groups"], case["out"]):
+        outs = lst(outs)
+        p = np.zeros(len(ps), dtype=dt3)
+        for i, (t, e, ar) in enumerate(ps):
+            p[i]["time"], p[i]["length"], p[i]["dt"], p[i]["area"] = t, e - t, 1, ar
+            p[i]["data"][0] = ar
+            p[i]["area_per_channel"][0] = ar
+            p[i]["n_hits"] = 1
+        starts = [g[0]] + ([g[2]] if g[2] < g[3] else [])
+        ends = [g[1]] + ([g[3]] if g[2] < g[3] else [])
+        try:
+            mp = strax.merge_peaks(p, np.array(starts), np.array(ends), max_buffer=16)
+            got = [dict(time=int(m["time"]), endtime=int(strax.endtime(m)), area=float(m["area"]), nhits=int(m["n_hits"]), dt=int(m["dt"]),
+                        length=int(m["length"]), data=[float(x) for x in m["data"][: m["length"]]]) for m in mp]
+        except Exception as e:  # noqa
+            got = repr(e)[:150]
+        want = [dict(time=o["time"], endtime=o["endtime"], area=float(o["area"]), nhits=o["nhits"], dt=o["dt"], length=o["length"],
+                     data=[float(x) for x in lst(o["data"])] if o["length"] else []) for o in outs]
+        if got != want:
+            bad.append((f"merge2:{ps}:groups={g}", f"merge_peaks on {ps} (area in the first sample, buffer of 3 samples), groups {list(zip(starts, ends))} "
+                        f"merged in one call gives {got}, definition {want}"))
+        else:
+            for m, o in zip(got, outs):
+                if abs(sum(m["data"]) - m["area"]) > 1e-6 or m["endtime"] != o["lastend"]:
+                    bad.append((f"merge:downsampling-shortens-the-merged-peak:{ps}:groups={g}",
+                                f"merge_peaks on {ps}, groups {list(zip(starts, ends))}: the merged peak covers [{m['time']}, {m['endtime']}) where the last "
+                                f"constituent ends at {o['lastend']}, and stores waveform {m['data']} (dt {m['dt']}) integrating to {sum(m['data'])} for an "
+                                f"area of {m['area']} (the trailing {(o['lastend'] - m['time']) % m['dt']} sample(s) do not fill a down-sampling group and are dropped)"))
+                    break
+    return bad, 1
+
+
 def check_sma(case):
     bad = []
     w = case["w"]
@@ -227,7 +264,7 @@ def check_hdr(case):
     return bad, 1
 
 
-CHECK = dict(hdr=check_hdr, findpeaks=check_findpeaks, merge=check_merge, sma=check_sma, iof=check_iof, split=check_split, sumwf=check_sumwf,
+CHECK = dict(hdr=check_hdr, findpeaks=check_findpeaks, merge=check_merge, merge2=check_merge2, sma=check_sma, iof=check_iof, split=check_split, sumwf=check_sumwf,
              widths=check_widths)
 
 
@@ -245,7 +282,7 @@ def _job(arg):
 
 def run(chk):
     quick = chk.tier == "quick"
-    scopes = [dict(G=4 if quick else 5, NH=3, Kind="findpeaks"), dict(G=5 if quick else 7, NH=3, Kind="merge"),
+    scopes = [dict(G=4 if quick else 5, NH=3, Kind="findpeaks"), dict(G=5 if quick else 7, NH=3, Kind="merge"), dict(G=7 if quick else 9, NH=4, Kind="merge2"),
               dict(G=0, NH=5 if quick else 7, Kind="sma"), dict(G=0, NH=5 if quick else 6, Kind="iof"),
               dict(G=0, NH=5 if quick else 7, Kind="split"), dict(G=0, NH=4 if quick else 5, Kind="sumwf"),
               dict(G=0, NH=5 if quick else 6, Kind="widths"), dict(G=0, NH=5 if quick else 6, Kind="hdr")]
